@@ -17,11 +17,15 @@ func main() {
 	fs := flag.NewFlagSet("vutil", flag.ExitOnError)
 	out := fs.String("out", "", "output ndjson")
 	max := fs.Int("max", 300, "largest sequence length")
+	n := fs.Int("n", 500, "random histories (mode wrapper)")
+	seed := fs.Int64("seed", 1, "seed")
 	fs.Parse(os.Args[2:])
 	w := vt.Create(*out)
 	switch os.Args[1] {
 	case "debruijn":
 		utild.DeBruijn(w, *max)
+	case "wrapper":
+		utild.Wrappers(w, vt.Rand(*seed, "wrapper"), *n)
 	default:
 		vt.Fatal("unknown mode %s", os.Args[1])
 	}
